@@ -1,14 +1,23 @@
-"""C39 RenameChoices renames exactly the mapped choices -- structural clauses."""
+"""C39 RenameChoices renames exactly the mapped choices -- structural clauses.
+
+All slots are filled by role: the mapping is the `renames` *parameter* (and locals that only alias
+it), a "lookup" is any `.get` on it, "the renamed value" is whatever local is bound to the result
+of `_rename_cell_choice`, "the rows written" are the elements that reach the row-id argument of
+the BulkUpdateRecord call, whatever the collecting locals are called and however the guards around
+them are spelled (nested if / early continue / swapped arms / comprehension / explicit loop)."""
 import ast
 from ..fn import World
 from ..index import AnalysisError, dotted
 from ..astutil import text, short, endswith, calls_in, walk_no_nested
 from ..dataflow import DefUse
+from ._h_F import (Res, res_of, scopes, aliases_of, is_none, isinstance_atom, call_arg, absent,
+                   canon, strip_wrappers)
 
 EXPLANATION = (
   "Decides (R1) that every new value is a single lookup keyed by the old value (so swaps work): "
   "no helper iterates over the mapping rewriting values in sequence; (R2) that only changed cells "
-  "and filters are written and formula columns are skipped; (R3) row-domain discipline: code that "
+  "and filters are written, formula columns are skipped for cell data but their saved filters are "
+  "still renamed; (R3) row-domain discipline: code that "
   "produces row ids for an action works from the table's row ids, never from indices of a "
   "column's raw storage (slot 0 and vacated slots hold right-type defaults). Not decided: the "
   "values themselves.")
@@ -21,164 +30,397 @@ def check(run, repo, tier):
   r3_row_domain(run, w)
 
 
-def _iterates_mapping(fnode, mapping):
-  for n in ast.walk(fnode):
-    it = None
-    if isinstance(n, (ast.For, ast.comprehension)):
-      it = n.iter
-    if it is not None:
-      t = text(it)
-      if t == mapping or t.startswith(mapping + ".items") or t.startswith(mapping + ".keys") or \
-          t.startswith("sorted(" + mapping) or t.startswith("list(" + mapping):
-        return True
-  return False
+# ------------------------------------------------------------------------------------ mapping uses
+def _parents(root):
+  par = {}
+  for n in ast.walk(root):
+    for ch in ast.iter_child_nodes(n):
+      par[id(ch)] = n
+  return par
+
+
+def _mapping_uses(w, fn, mp):
+  """[(kind, res, cfg node, ast node)] for every read of the mapping `mp` (a parameter of fn, or a
+  local that only aliases it) in fn and the defs/lambdas nested in it. kind: iter / get / in /
+  arg / sub / other."""
+  outer = res_of(w, fn)
+  names = aliases_of(outer, mp)
+  out = []
+  for r in scopes(w, fn):
+    own = names if r is outer else {x for x in names if x not in r.params and x not in r.defs}
+    for n in r.cfg.nodes:
+      for root in n.exprs:
+        par = None
+        for x in walk_no_nested(root, into_lambda=True):
+          if not (isinstance(x, ast.Name) and isinstance(x.ctx, ast.Load) and x.id in own):
+            continue
+          if n.kind in ("stmt",) and isinstance(n.stmt, ast.Assign) and n.stmt.value is x:
+            continue          # the aliasing assignment itself
+          par = par or _parents(root)
+          kind = "other"
+          p = par.get(id(x))
+          # inside the iterable of a loop / comprehension?
+          a, in_iter = x, (n.kind == "for" and root is n.stmt.iter)
+          while id(a) in par and not in_iter:
+            pa = par[id(a)]
+            if isinstance(pa, ast.comprehension) and pa.iter is a:
+              in_iter = True
+            a = pa
+          if in_iter:
+            kind, site = "iter", root
+          elif isinstance(p, ast.Attribute) and p.value is x and \
+              isinstance(par.get(id(p)), ast.Call) and par[id(p)].func is p:
+            kind, site = ("get" if p.attr == "get" else "method:" + p.attr), par[id(p)]
+          elif isinstance(p, ast.Compare) and len(p.ops) == 1 and \
+              isinstance(p.ops[0], (ast.In, ast.NotIn)) and p.comparators[0] is x:
+            kind, site = "in", p
+          elif isinstance(p, ast.Subscript) and p.value is x:
+            kind, site = "sub", p
+          elif isinstance(p, (ast.Call, ast.keyword)):
+            kind, site = "arg", (p if isinstance(p, ast.Call) else par.get(id(p)))
+          else:
+            site = p if p is not None else x
+          out.append((kind, r, n, site))
+  return out
+
+
+def _single_lookup(r, n, call, mp_names, want_default):
+  """Is `call` (a .get on the mapping evaluated at node n) a one-step lookup of a plain old value?
+  want_default: 'same' -> get(v, v); 'none' -> get(v) / get(v, None). Returns (ok, key expr)."""
+  args = list(call.args)
+  if call.keywords or not args or len(args) > 2:
+    return False, None
+  key = args[0]
+  # the key is the old value itself, not something looked up first
+  if any(isinstance(x, ast.Name) and x.id in mp_names for x in ast.walk(r.expand(key, n.id))):
+    return False, key
+  if want_default == "same":
+    return len(args) == 2 and r.norm(args[1], n.id) == r.norm(key, n.id), key
+  return len(args) == 1 or is_none(args[1]), key
 
 
 def r1_single_step(run, w):
   R1 = run.rule("C39-R1", "each renamed value is one lookup renames.get(old[, old]); the mapping "
                 "is never iterated to rewrite values in sequence", floor=3)
+  # ---- Choice cells: every result is renames.get(value) (or None)
   c1 = w.fn("column.ChoiceColumn._rename_cell_choice")
   ps = c1.fi.params()
-  rets = [n for n in ast.walk(c1.node) if isinstance(n, ast.Return)]
-  ok = len(rets) == 1 and text(rets[0].value) == "%s.get(%s)" % (ps[1], ps[2]) and \
-      not _iterates_mapping(c1.node, ps[1])
+  mp, vp = ps[1], ps[2]
+  r = res_of(w, c1)
+  uses = _mapping_uses(w, c1, mp)
+  names = aliases_of(r, mp)
+  ok = not any(k == "iter" for (k, _, _, _) in uses) and not r.falls_off_end()
+  n_lookup = 0
+  for (n, v) in r.returns():
+    for (facts, leaf) in Res.cases(v):
+      if is_none(leaf):
+        continue
+      good = False
+      if isinstance(leaf, ast.Call) and isinstance(leaf.func, ast.Attribute) and \
+          leaf.func.attr == "get" and isinstance(leaf.func.value, ast.Name) and \
+          leaf.func.value.id in names:
+        good = (len(leaf.args) == 1 or (len(leaf.args) == 2 and is_none(leaf.args[1]))) and \
+            not leaf.keywords and text(leaf.args[0]) == vp
+      elif isinstance(leaf, ast.Subscript) and isinstance(leaf.value, ast.Name) and \
+          leaf.value.id in names and text(leaf.slice) == vp:
+        good = r.known(n.id, lambda a, nd: isinstance(a, ast.Compare) and
+                       isinstance(a.ops[0], ast.In) and text(a.left) == vp and
+                       text(a.comparators[0]) in names, True, facts)
+      n_lookup += good
+      ok = ok and good
   run.ob(R1, c1.qualname, "return renames.get(value)", "a Choice cell maps through one lookup",
-         ok, fi=c1.fi)
+         ok and n_lookup >= 1, fi=c1.fi)
+  # ---- Choice List cells: every element is renames.get(choice, choice) for choice in value
   c2 = w.fn("column.ChoiceListColumn._rename_cell_choice")
   ps = c2.fi.params()
-  ok = not _iterates_mapping(c2.node, ps[1])
-  comp = [n for n in ast.walk(c2.node) if isinstance(n, ast.GeneratorExp) and
-          isinstance(n.elt, ast.Call) and text(n.elt.func) == ps[1] + ".get"]
-  ok = ok and len(comp) == 1 and len(comp[0].elt.args) == 2 and \
-      text(comp[0].elt.args[0]) == text(comp[0].elt.args[1]) == text(comp[0].generators[0].target) \
-      and text(comp[0].generators[0].iter) == ps[2]
+  mp, vp = ps[1], ps[2]
+  r = res_of(w, c2)
+  uses = _mapping_uses(w, c2, mp)
+  names = aliases_of(r, mp)
+  ok = not any(k == "iter" for (k, _, _, _) in uses)
+  n_elts = 0
+  for (n, v) in r.returns(expand=False):
+    for (facts, leaf) in Res.cases(r.expand(v, n.id)):
+      if is_none(leaf):
+        continue
+      els = r.elements(leaf, n.id)
+      if not els:
+        ok = False
+        continue
+      for el in els:
+        good = len(el.loops) == 1 and not el.conds and \
+            r.norm(strip_wrappers(el.loops[0][1]), el.node.id if el.node else n.id) == vp and \
+            isinstance(el.loops[0][0], ast.Name)
+        if good:
+          tv = el.loops[0][0].id
+          e = el.elt
+          good = isinstance(e, ast.Call) and isinstance(e.func, ast.Attribute) and \
+              e.func.attr == "get" and isinstance(e.func.value, ast.Name) and \
+              e.func.value.id in names and len(e.args) == 2 and not e.keywords and \
+              text(e.args[0]) == text(e.args[1]) == tv
+        n_elts += good
+        ok = ok and good
   run.ob(R1, c2.qualname, "tuple(renames.get(choice, choice) for choice in value)",
-         "each element of a Choice List maps through one lookup, unmapped elements stay", ok,
-         fi=c2.fi)
+         "each element of a Choice List maps through one lookup, unmapped elements stay",
+         ok and n_elts >= 1, fi=c2.fi)
+  # ---- saved filters: every consultation of the mapping is get(v, v) on a value known to be a str
   ua = w.fn("useractions.UserActions.RenameChoices")
   mp = ua.fi.params()[3]
-  helper = [s for s in ua.node.body if isinstance(s, ast.FunctionDef)]
-  ok = len(helper) == 1 and not _iterates_mapping(ua.node, mp)
-  if ok:
-    h = helper[0]
-    hp = h.args.args[0].arg
-    rets = [n for n in ast.walk(h) if isinstance(n, ast.Return)]
-    ok = len(rets) == 1 and isinstance(rets[0].value, ast.IfExp) and \
-        text(rets[0].value.body) == "%s.get(%s, %s)" % (mp, hp, hp) and \
-        text(rets[0].value.orelse) == hp
+  uses = _mapping_uses(w, ua, mp)
+  outer = res_of(w, ua)
+  names = aliases_of(outer, mp)
+  ok = not any(k == "iter" for (k, _, _, _) in uses)
+  n_get = 0
+  for (k, r, n, site) in uses:
+    if k == "get":
+      good, key = _single_lookup(r, n, site, names, "same")
+      if good:
+        kt = {text(key), r.norm(key, n.id)}
+        good = r.known(n.id, isinstance_atom(r, kt, {"str"}), True, within=site)
+      n_get += good
+      ok = ok and good
+    elif k in ("sub", "other") or k.startswith("method:"):
+      raise AnalysisError("RenameChoices: use of the mapping not modelled: %s" % short(site))
+  if ok and not n_get:
+    ok = absent(w, ua, "a lookup of filter values in the mapping")
   run.ob(R1, ua.qualname, "rename(v) = renames.get(v, v) if isinstance(v, str) else v",
-         "filter values map through one lookup; non-strings stay", ok, fi=ua.fi)
+         "filter values map through one lookup; non-strings stay", ok and n_get >= 1, fi=ua.fi)
+
+
+# ------------------------------------------------------------------------------------------- R2
+def _calls_named(fn, *suffixes):
+  return [(n, c) for (n, c, nm) in fn.calls() if endswith(nm, *suffixes)]
+
+
+def _ua_parts(w):
+  """Role lookup in RenameChoices: the rename_choices call, the update of the column's own table,
+  the update of _grist_Filters."""
+  ua = w.fn("useractions.UserActions.RenameChoices")
+  r = res_of(w, ua)
+  ps = ua.fi.params()
+  upd = _calls_named(ua, "self.BulkUpdateRecord")
+  col_upd, flt_upd = [], []
+  for (n, c) in upd:
+    a0 = call_arg(c, 0, "table_id")
+    if a0 is None:
+      continue
+    t = r.norm(a0, n.id)
+    if t == ps[1]:
+      col_upd.append((n, c))
+    elif t in ("'_grist_Filters'",):
+      flt_upd.append((n, c))
+  ren = [(n, c) for (n, c, nm) in ua.calls() if nm and nm.endswith(".rename_choices")]
+  return ua, r, ps, ren, col_upd, flt_upd
+
+
+def _is_formula_atom(r, col_text):
+  def pred(a, node):
+    return isinstance(a, ast.Call) and isinstance(a.func, ast.Attribute) and \
+        a.func.attr == "is_formula" and not a.args and \
+        r.norm(a.func.value, node.id) == col_text
+  return pred
 
 
 def r2_only_changed(run, w):
   R2 = run.rule("C39-R2", "only changed cells and filters are written; formula columns are "
                 "skipped", floor=4)
+  # ---- ChoiceColumn.rename_choices: a cell is collected only when its renamed value is not None
   rc = w.fn("column.ChoiceColumn.rename_choices")
-  cfg = rc.cfg
-  apps = [n for n in cfg.nodes if any(isinstance(c.func, ast.Attribute) and
-                                      c.func.attr == "append" for c in calls_in(n.exprs))]
-  guards = {n.id for n in cfg.nodes if n.kind == "if" and
-            text(n.stmt.test) in ("value is not None", "new_value is not None")}
-  # the inner guard comes after the renaming call
-  ren = rc.nodes_calling(lambda c, nm, f: nm == "self._rename_cell_choice")
-  inner = {g for g in guards if g in cfg.reach_after(ren)}
-  ok = bool(apps) and bool(inner) and all(cfg.dominated_by(a.id, inner) for a in apps)
+  r = res_of(w, rc)
+  def renamed_is_none(a, node):
+    if not (isinstance(a, ast.Compare) and isinstance(a.ops[0], ast.Is) and
+            is_none(a.comparators[0])):
+      return False
+    v = r.expand(a.left, node.id)
+    return isinstance(v, ast.Call) and endswith(dotted(v.func), "self._rename_cell_choice")
+  els = _returned_elements(r)
+  ok = bool(els) and all(el.node is not None and r.known(el.node.id, renamed_is_none, False)
+                         for el in els)
+  if not els:
+    ok = absent(w, rc, "the collected (row id, value) lists")
   run.ob(R2, rc.qualname, "if value is not None: row_ids.append(...); values.append(...)",
          "cells whose value is not mapped are not written", ok, fi=rc.fi)
+  # ---- ChoiceListColumn: a list without any mapped element is left alone
   c2 = w.fn("column.ChoiceListColumn._rename_cell_choice")
   ps = c2.fi.params()
-  cfg2 = c2.cfg
-  tests = {n.id for n in cfg2.nodes if n.kind == "if" and isinstance(n.stmt.test, ast.Call) and
-           dotted(n.stmt.test.func) == "any" and ps[1] in text(n.stmt.test)}
-  rets = [n for n in cfg2.nodes if n.kind == "return"]
-  none_rets = [n for n in rets if isinstance(n.stmt.value, ast.Constant) and
-               n.stmt.value.value is None]
-  ok = bool(tests) and bool(none_rets) and all(
-    cfg2.dominated_by(n.id, tests) for n in rets if n not in none_rets)
+  r2 = res_of(w, c2)
+  names = aliases_of(r2, ps[1])
+  def any_mapped(a, node):
+    # any(<t> in renames for <t> in value)
+    if not (isinstance(a, ast.Call) and dotted(a.func) == "any" and len(a.args) == 1 and
+            isinstance(a.args[0], (ast.GeneratorExp, ast.ListComp))):
+      return False
+    g = a.args[0]
+    if len(g.generators) != 1 or g.generators[0].ifs:
+      return False
+    e, p = canon(g.elt)
+    return p and isinstance(e, ast.Compare) and isinstance(e.ops[0], ast.In) and \
+        text(e.left) == text(g.generators[0].target) and text(e.comparators[0]) in names and \
+        r2.norm(g.generators[0].iter, node.id) == ps[2]
+  ok = True
+  n_ret = 0
+  none_ret = r2.falls_off_end() or bool(r2.bare_returns())
+  for (n, v) in r2.returns():
+    for (facts, leaf) in Res.cases(v):
+      if is_none(leaf):
+        none_ret = True
+        continue
+      n_ret += 1
+      ok = ok and r2.known(n.id, any_mapped, True, facts)
   run.ob(R2, c2.qualname, "if any(v in renames for v in value): ... else None",
-         "a Choice List without any mapped element is left alone", ok, fi=c2.fi)
-  ua = w.fn("useractions.UserActions.RenameChoices")
-  cfg = ua.cfg
-  upd = [(n, c) for (n, c, nm) in ua.calls() if nm == "self.BulkUpdateRecord"]
-  col_upd = [(n, c) for (n, c) in upd if text(c.args[0]) == ua.fi.params()[1]]
-  formula_guard = {n.id for n in cfg.nodes if n.kind == "if" and
-                   text(n.stmt.test).startswith("not ") and "is_formula()" in text(n.stmt.test)}
-  ok = len(col_upd) == 1 and bool(formula_guard) and \
-      cfg.dominated_by(col_upd[0][0].id, formula_guard)
+         "a Choice List without any mapped element is left alone", ok and none_ret and n_ret >= 1,
+         fi=c2.fi)
+  # ---- RenameChoices
+  ua, r, ps, ren, col_upd, flt_upd = _ua_parts(w)
+  if len(ren) != 1:
+    if not ren:
+      absent(w, ua, "the call of <column>.rename_choices")
+    raise AnalysisError("RenameChoices: expected one rename_choices call")
+  col_text = r.norm(ren[0][1].func.value, ren[0][0].id)
+  is_formula = _is_formula_atom(r, col_text)
+  ok = len(col_upd) == 1 and r.known(col_upd[0][0].id, is_formula, False) and \
+      r.known(ren[0][0].id, is_formula, False)
+  if not col_upd:
+    ok = absent(w, ua, "the BulkUpdateRecord of the column's own table")
   run.ob(R2, ua.qualname, "if not col.is_formula(): ... BulkUpdateRecord(table_id, ...)",
          "formula columns are not written (they recalculate)", ok, fi=ua.fi)
+  if not flt_upd:
+    absent(w, ua, "the BulkUpdateRecord of _grist_Filters")
+  # saved filters are renamed whatever kind of column it is
+  ok = bool(flt_upd) and not any(r.guarded(n.id, is_formula, False) or
+                                 r.guarded(n.id, is_formula, True) for (n, c) in flt_upd)
+  run.ob(R2, ua.qualname, "BulkUpdateRecord('_grist_Filters', ...) not under the is_formula() test",
+         "the saved filters of a formula column are renamed too", ok, fi=ua.fi)
   # filters: only changed filters collected, and only the filters of this column
-  diff = {n.id for n in cfg.nodes if n.kind == "if" and isinstance(n.stmt.test, ast.Compare) and
-          isinstance(n.stmt.test.ops[0], ast.NotEq) and
-          {text(n.stmt.test.left), text(n.stmt.test.comparators[0])} == {"col_filter",
-                                                                          "new_filter"}}
-  fapps = [n for n in cfg.nodes if any(fn_ in ("row_ids.append", "values.append")
-                                       for fn_ in [ua.name(c) for c in calls_in(n.exprs)])]
-  ok = bool(diff) and bool(fapps) and all(cfg.dominated_by(a.id, diff) for a in fapps)
+  row_els, val_els = [], []
+  for (n, c) in flt_upd:
+    rows = call_arg(c, 1, "row_ids")
+    cols = call_arg(c, 2, "columns")
+    cols = r.expand(cols, n.id) if cols is not None else None
+    vals = None
+    if isinstance(cols, ast.Dict):
+      for k, v in zip(cols.keys, cols.values):
+        if k is not None and text(k) == "'filter'":
+          vals = v
+    if rows is None or vals is None:
+      raise AnalysisError("RenameChoices: arguments of the _grist_Filters update not understood")
+    e1, e2 = r.elements(rows, n.id), r.elements(vals, n.id)
+    if e1 is None or e2 is None:
+      raise AnalysisError("RenameChoices: how the _grist_Filters update lists are built is not "
+                          "understood")
+    row_els += e1
+    val_els += e2
+  new_texts = set()
+  for el in val_els:
+    v = r.expand(el.elt, el.node.id)
+    if isinstance(v, ast.Call) and dotted(v.func) == "json.dumps" and v.args:
+      new_texts.add(text(v.args[0]))
+    else:
+      raise AnalysisError("RenameChoices: a filter value written is not json.dumps(<new filter>)")
+  def unchanged(a, node):
+    if not (isinstance(a, ast.Compare) and isinstance(a.ops[0], ast.Eq)):
+      return False
+    sides = [r.expand(a.left, node.id), r.expand(a.comparators[0], node.id)]
+    loads = [s for s in sides if isinstance(s, ast.Call) and dotted(s.func) == "json.loads"]
+    other = [s for s in sides if s not in loads]
+    return len(loads) == 1 and len(other) == 1 and text(other[0]) in new_texts
+  ok = bool(row_els) and bool(val_els) and \
+      all(el.node is not None and r.known(el.node.id, unchanged, False)
+          for el in row_els + val_els)
   run.ob(R2, ua.qualname, "if col_filter != new_filter: collect", "unchanged filters are not "
          "rewritten", ok, fi=ua.fi)
-  ok = any(isinstance(c.func, ast.Attribute) and c.func.attr == "filter_records" and
-           any(k.arg == "colRef" and text(k.value) == "colRef" for k in c.keywords)
-           for c in calls_in(ua.node)) and \
-      any(text(v) == "self._docmodel.get_column_rec(%s, %s).id" % tuple(ua.fi.params()[1:3])
-          for v in _defs(ua.node, "colRef"))
+  want_ref = "self._docmodel.get_column_rec(%s, %s).id" % tuple(ps[1:3])
+  def this_columns_filters(el):
+    if len(el.loops) != 1:
+      return False
+    it = r.expand(el.loops[0][1], el.node.id)
+    if not (isinstance(it, ast.Call) and isinstance(it.func, ast.Attribute) and
+            it.func.attr == "filter_records" and not it.args):
+      return False
+    kws = {k.arg: text(k.value) for k in it.keywords}
+    return kws == {"colRef": want_ref} and \
+        text(it.func.value) == "self._engine.tables['_grist_Filters']"
+  ok = bool(row_els) and all(this_columns_filters(el) for el in row_els + val_els) and \
+      all(isinstance(el.loops[0][0], ast.Name) and
+          text(el.elt) == el.loops[0][0].id + ".id" for el in row_els)
   run.ob(R2, ua.qualname, "filters.filter_records(colRef=<this column>)", "only this column's "
          "saved filters are considered", ok, fi=ua.fi)
 
 
-def _defs(fnode, name):
-  return [n.value for s in fnode.body for n in walk_no_nested(s)
-          if isinstance(n, ast.Assign) and any(isinstance(t, ast.Name) and t.id == name
-                                               for t in n.targets)]
+def _returned_elements(r):
+  """Elements of every list returned (directly or as a member of a returned tuple)."""
+  out = []
+  for (n, v) in r.returns():
+    parts = v.elts if isinstance(v, ast.Tuple) else [v]
+    for p in parts:
+      els = r.elements(p, n.id)
+      if els is None:
+        raise AnalysisError("%s: how the returned list %s is built is not understood"
+                            % (r.fn.qualname, short(p)))
+      out += els
+  return out
 
 
+# ------------------------------------------------------------------------------------------- R3
 def r3_row_domain(run, w):
   R3 = run.rule("C39-R3", "row ids handed to actions come from the table's row ids, not from "
                 "indices of raw column storage", floor=3)
   # (a) no column method that enumerates its raw storage returns / collects the indices
-  n_enum = 0
   for fi in w.repo.all_functions():
     if fi.module.name not in ("column", "lookup"):
       continue
     for n in ast.walk(fi.node):
       if isinstance(n, (ast.For, ast.comprehension)) and isinstance(n.iter, ast.Call) and \
           dotted(n.iter.func) == "enumerate" and n.iter.args and \
-          text(n.iter.args[0]).endswith("._data") and isinstance(n.target, ast.Tuple):
-        n_enum += 1
+          isinstance(n.target, ast.Tuple):
+        fn = w.fn_of(fi)
+        if not res_of(w, fn).norm(n.iter.args[0]).endswith("._data"):
+          continue
         idx = text(n.target.elts[0])
         # does the index escape through a return value?
-        fn = w.fn_of(fi)
         du = DefUse(fn)
         escapes = False
-        for r in ast.walk(fi.node):
-          if isinstance(r, ast.Return) and r.value is not None:
-            if du.flows_from(lambda x: isinstance(x, ast.Name) and x.id == idx, r.value):
+        for rr in ast.walk(fi.node):
+          if isinstance(rr, ast.Return) and rr.value is not None:
+            if du.flows_from(lambda x: isinstance(x, ast.Name) and x.id == idx, rr.value):
               escapes = True
-        run.ob(R3, fi.qualname, "for %s, ... in enumerate(self._data)" % idx,
+        run.ob(R3, fi.qualname, "for <index>, ... in enumerate(self._data)",
                "storage indices (which include slot 0 and vacated slots) do not leave the column "
                "as row ids", not escapes, fi=fi, node=n)
   rc = w.fn("column.ChoiceColumn.rename_choices")
   ps = rc.fi.params()
-  loops = [s for s in rc.node.body if isinstance(s, ast.For)]
-  ok = len(ps) >= 3 and len(loops) == 1 and text(loops[0].iter) == ps[2]
+  r = res_of(w, rc)
+  ok = len(ps) >= 3
+  ids = []
+  if ok:
+    for (n, v) in r.returns():
+      if not (isinstance(v, ast.Tuple) and len(v.elts) == 2):
+        raise AnalysisError("rename_choices: result is not a (row ids, values) pair")
+      ids += r.elements(v.elts[0], n.id) or []
+    ok = bool(ids) and all(
+      len(el.loops) == 1 and isinstance(el.loops[0][0], ast.Name) and
+      r.norm(el.loops[0][1], el.node.id) == ps[2] and text(el.elt) == el.loops[0][0].id
+      for el in ids)
   run.ob(R3, rc.qualname, "for row_id in <row ids parameter>", "candidate rows are the rows the "
          "caller names", ok, fi=rc.fi)
-  ua = w.fn("useractions.UserActions.RenameChoices")
-  calls = [c for (n, c, nm) in ua.calls() if nm and nm.endswith(".rename_choices")]
-  ok = len(calls) == 1 and len(calls[0].args) == 2 and \
-      text(calls[0].args[1]).endswith(".row_ids") and \
-      any(text(v) == "self._engine.tables[%s]" % ua.fi.params()[1]
-          for v in _defs(ua.node, text(calls[0].args[1]).rsplit(".", 1)[0]))
+  ua, r, ps, ren, col_upd, flt_upd = _ua_parts(w)
+  ok = len(ren) == 1
+  if ok:
+    n, c = ren[0]
+    rows = call_arg(c, 1, "table_row_ids")
+    ok = rows is not None and \
+        r.norm(rows, n.id) == "self._engine.tables[%s].row_ids" % ps[1]
   run.ob(R3, ua.qualname, "col.rename_choices(renames, table.row_ids)",
          "the rows considered are exactly the table's existing rows", ok, fi=ua.fi)
   # the ids returned by rename_choices are the ids given to the update action
-  upd = [c for (n, c, nm) in ua.calls() if nm == "self.BulkUpdateRecord" and
-         text(c.args[0]) == ua.fi.params()[1]]
-  ok = False
-  for s in ast.walk(ua.node):
-    if isinstance(s, ast.Assign) and isinstance(s.value, ast.Call) and s.value in calls and \
-        isinstance(s.targets[0], ast.Tuple) and upd:
-      ok = text(s.targets[0].elts[0]) == text(upd[0].args[1])
+  ok = len(col_upd) == 1 and len(ren) == 1
+  if ok:
+    n, c = col_upd[0]
+    a = call_arg(c, 1, "row_ids")
+    v = r.expand(a, n.id) if a is not None else None
+    ok = isinstance(v, ast.Subscript) and text(v.slice) == "0" and \
+        isinstance(v.value, ast.Call) and isinstance(v.value.func, ast.Attribute) and \
+        v.value.func.attr == "rename_choices"
   run.ob(R3, ua.qualname, "row_ids, values = col.rename_choices(...); BulkUpdateRecord(table_id, "
          "row_ids, ...)", "the action updates the rows the column reported", ok, fi=ua.fi)
 
@@ -207,7 +449,19 @@ VARIANTS = [
         values.append(value)""", "C39-R2"),
   ("formula-columns-written", U, "    if not col.is_formula():\n      row_ids, values = col.rename_choices",
    "    if True:\n      row_ids, values = col.rename_choices", "C39-R2"),
+  ("formula-column-filters-skipped", U, """    if not col.is_formula():
+      row_ids, values = col.rename_choices(renames, table.row_ids)
+      values = [encode_object(v) for v in values]
+      self.BulkUpdateRecord(table_id, row_ids, {col_id: values})
+""", """    if col.is_formula():
+      return
+    row_ids, values = col.rename_choices(renames, table.row_ids)
+    values = [encode_object(v) for v in values]
+    self.BulkUpdateRecord(table_id, row_ids, {col_id: values})
+""", "C39-R2"),
   ("all-filters-rewritten", U, "      if col_filter != new_filter:\n", "      if new_filter:\n", "C39-R2"),
   ("filter-rename-non-strings", U, "      return renames.get(value, value) if isinstance(value, str) else value",
    "      return renames.get(str(value), value)", "C39-R1"),
+  ("other-columns-filters", U, "    col_filters = filters.filter_records(colRef=colRef)",
+   "    col_filters = filters.filter_records()", "C39-R2"),
 ]
